@@ -466,7 +466,9 @@ impl TTS {
         fn compute_bookmark_element<'c, 's:'c, 'm, 'r>(value: &TTSCommandValue, tag_and_attr: &str, rules_with_context: &'r mut SpeechRulesWithContext<'c, 's, 'm>, mathml: Element<'c>) -> Result<String> {
             match value {
                 TTSCommandValue::XPath(xpath) => {
-                    let id = xpath.replace::<String>(rules_with_context, mathml)?;
+                    // the id is data, not text to be spoken: take the value of the xpath as it is (replace() would run it through the
+                    // character replacements, which turn an id like 'x' into the speech for the letter x)
+                    let id = xpath.evaluate(rules_with_context.get_context(), mathml)?.string();
                     return Ok( format!("<{}='{}'/>", tag_and_attr, id) );
                 },
                 _ => bail!("Implementation error: found bookmark value that did not evaluate to a string"),
